@@ -36,12 +36,14 @@ def identChar (b : Byte) : Bool :=
 def upper (b : Byte) : Byte := if 97 ≤ b && b ≤ 122 then b - 32 else b
 def str (s : String) : Seq := s.toUTF8.toList
 
+/-- #NEXUS BEGIN DATA CHARACTERS TAXA TAXLABELS TREES TREE DIMENSIONS NTAX NCHAR FORMAT DATATYPE MISSING
+MATCHCHAR GAP MATRIX END (byte literals so that the kernel can evaluate the table) -/
 def keywords : List (Seq × Kind) := [
-  (str "#NEXUS", .nexus), (str "BEGIN", .begin), (str "DATA", .data), (str "CHARACTERS", .data),
-  (str "TAXA", .taxa), (str "TAXLABELS", .taxlabels), (str "TREES", .trees), (str "TREE", .tree),
-  (str "DIMENSIONS", .dimensions), (str "NTAX", .ntax), (str "NCHAR", .nchar), (str "FORMAT", .format),
-  (str "DATATYPE", .datatype), (str "MISSING", .missing), (str "MATCHCHAR", .matchchar), (str "GAP", .gap),
-  (str "MATRIX", .matrix), (str "END", .end_)]
+  (([35, 78, 69, 88, 85, 83] : Seq), .nexus), (([66, 69, 71, 73, 78] : Seq), .begin), (([68, 65, 84, 65] : Seq), .data), (([67, 72, 65, 82, 65, 67, 84, 69, 82, 83] : Seq), .data),
+  (([84, 65, 88, 65] : Seq), .taxa), (([84, 65, 88, 76, 65, 66, 69, 76, 83] : Seq), .taxlabels), (([84, 82, 69, 69, 83] : Seq), .trees), (([84, 82, 69, 69] : Seq), .tree),
+  (([68, 73, 77, 69, 78, 83, 73, 79, 78, 83] : Seq), .dimensions), (([78, 84, 65, 88] : Seq), .ntax), (([78, 67, 72, 65, 82] : Seq), .nchar), (([70, 79, 82, 77, 65, 84] : Seq), .format),
+  (([68, 65, 84, 65, 84, 89, 80, 69] : Seq), .datatype), (([77, 73, 83, 83, 73, 78, 71] : Seq), .missing), (([77, 65, 84, 67, 72, 67, 72, 65, 82] : Seq), .matchchar), (([71, 65, 80] : Seq), .gap),
+  (([77, 65, 84, 82, 73, 88] : Seq), .matrix), (([69, 78, 68] : Seq), .end_)]
 
 def classify (lit : Seq) : Tok :=
   if (parseInt64 lit).isSome then ⟨.numeric, lit⟩
@@ -199,7 +201,7 @@ structure Data where
   rows : List XRow := []        -- names in order of first appearance with their (concatenated) sequences
   nchar : Int := -1
   ntax : Int := -1
-  datatype : Seq := str "dna"
+  datatype : Seq := ([100, 110, 97] : Seq)
   missing : Byte := 42
   gap : Byte := 45
   matchchar : Byte := 46
@@ -339,8 +341,8 @@ def replaceMatchChars : List XRow → List XRow
 /-- `AlphabetFromString` -/
 def alphabetFromString (s : Seq) : Nat :=
   let l := s.map fun b => if 65 ≤ b && b ≤ 90 then b + 32 else b
-  if l == str "dna" || l == str "rna" || l == str "nucleotide" || l == str "nt" then NUCLEOTIDS
-  else if l == str "protein" || l == str "aa" then AMINOACIDS
+  if l == ([100, 110, 97] : Seq) || l == ([114, 110, 97] : Seq) || l == ([110, 117, 99, 108, 101, 111, 116, 105, 100, 101] : Seq) || l == ([110, 116] : Seq) then NUCLEOTIDS
+  else if l == ([112, 114, 111, 116, 101, 105, 110] : Seq) || l == ([97, 97] : Seq) then AMINOACIDS
   else UNKNOWN
 
 def parseR (f : Facts) (o : POpts) (bs : Seq) : R Aln := do
@@ -389,8 +391,8 @@ def parse (f : Facts) (o : POpts) (bs : Seq) : Outcome Aln := toOutcome (parseR 
 /-- `WriteAlignment(al)`; `len` is `al.Length()` -/
 def write (alphabet : Nat) (rows : List XRow) : Seq :=
   let len : Int := match rows with | r :: _ => r.2.length | [] => -1
-  str "#NEXUS\nbegin data;\ndimensions ntax=" ++ natDec rows.length ++ str " nchar=" ++ intDec len ++
-  str ";\nformat datatype=" ++ (if alphabet == AMINOACIDS then str "protein" else str "dna") ++ str ";\nmatrix\n" ++
-  rows.flatMap (fun r => r.1 ++ [SP] ++ r.2 ++ [NL]) ++ str ";\nend;\n"
+  ([35, 78, 69, 88, 85, 83, 10, 98, 101, 103, 105, 110, 32, 100, 97, 116, 97, 59, 10, 100, 105, 109, 101, 110, 115, 105, 111, 110, 115, 32, 110, 116, 97, 120, 61] : Seq) ++ natDec rows.length ++ ([32, 110, 99, 104, 97, 114, 61] : Seq) ++ intDec len ++
+  ([59, 10, 102, 111, 114, 109, 97, 116, 32, 100, 97, 116, 97, 116, 121, 112, 101, 61] : Seq) ++ (if alphabet == AMINOACIDS then ([112, 114, 111, 116, 101, 105, 110] : Seq) else ([100, 110, 97] : Seq)) ++ ([59, 10, 109, 97, 116, 114, 105, 120, 10] : Seq) ++
+  rows.flatMap (fun r => r.1 ++ [SP] ++ r.2 ++ [NL]) ++ ([59, 10, 101, 110, 100, 59, 10] : Seq)
 
 end Gv.Model.Fmt.Nexus
